@@ -66,7 +66,7 @@ func neighbours(s *big.Int) []*big.Int {
 
 func main() {
 	run := report.New("C11", "exploration")
-	run.Rule("(A) static: a configured CRL of issuer X lists serials of width 1..20; probes = the same serials under other issuers (different DN, swapped RDN order, name with '_1' suffix, prefix/suffix names) and numeric/byte/decimal neighbours of every listed serial under X; (B) histories of length <=3 (quick) / <=4 (thorough) over {rejected load: bad signature | parse error after k entries | unhandled critical extension, accepted load A, accepted load B (removes and adds entries), restart} on both backends, after every event every serial ever published is probed; oracle: a probe not in the last accepted list (under its own issuer) must be accepted; non-trivial = case in which a listed control probe was rejected (the CRL really is in force) or a rejected document's serial was probed; distinct = case descriptor")
+	run.Rule("(A) static: a configured CRL of issuer X lists serials of width 1..20; probes = the same serials under other issuers (different DN, swapped RDN order, name with '_1' suffix, prefix/suffix names) and numeric/byte/decimal neighbours of every listed serial under X; (A2) an indirect CRL whose entries name another certificate issuer; (A3) lists forged by a client certificate of the CA (client extensions {bc+ku, no basicConstraints, no keyUsage, neither} x AKI {absent, client's, CA's key id} x issuer name {CA, client}) served at a CDP shared with other certificates of the CA, which must stay accepted; (B) histories of length <=3 (quick) / <=4 (thorough) over {rejected load: bad signature | parse error after k entries | unhandled critical extension, accepted load A, accepted load B (removes and adds entries), restart} on both backends, after every event every serial ever published is probed; oracle: a probe not in the last accepted list (under its own issuer) must be accepted; non-trivial = case in which a listed control probe was rejected (the CRL really is in force) or a rejected document's serial was probed; distinct = case descriptor")
 	run.Assume("lenient CDP mode, healthy origin, signature mode verify", "names differing only in ASN.1 string type or case are the same name under RFC 5280 and are not used as 'other issuer'")
 	scratch, _ := report.Scratch("C11")
 	sut.QuietStderr(filepath.Join(scratch, "stderr.log"))
@@ -234,6 +234,74 @@ func main() {
 				continue
 			}
 			run.NonTrivial(desc)
+		}
+		chk.Stop()
+		_ = os.RemoveAll(wd)
+	}
+
+	// ------------------------------------------------------------------ (A3) list forged by a client
+	// A client certificate of the CA serves, at its own CDP, a list that names the CA as issuer but is
+	// signed with the client's key (authorityKeyIdentifier absent / the client's / the CA's key id).
+	// Certificates of the CA that share the CDP and appear in that list are not revoked by anyone
+	// entitled to: they must stay accepted.
+	for _, backend := range []string{"memory", "disk"} {
+		if !mine() {
+			continue
+		}
+		wd := filepath.Join(scratch, "wd-forged-"+backend)
+		_ = os.MkdirAll(wd, 0755)
+		chk, err := l2.Start(l2.Opts{WorkDir: wd, Storage: backend, SigMode: "verify", Fetch: "actively"})
+		if err != nil {
+			run.Violation("forged.provision-failed", err.Error(), nil)
+			continue
+		}
+		n := 0
+		for _, shape := range []string{"bc+ku", "no-bc", "no-ku", "no-bc-no-ku"} {
+			for _, aki := range []string{"absent", "client-ski", "ca-ski"} {
+				for _, named := range []string{"ca", "client"} {
+					n++
+					path := fmt.Sprintf("/forged-%s-%d.crl", backend, n)
+					url := w.CRL.URL(path)
+					attacker := w.Int.Issue(pki.CertOpts{CN: fmt.Sprintf("c11 forging client %s %d", backend, n), CDP: []string{url},
+						NoBasicConstraints: strings.Contains(shape, "no-bc"), NoKeyUsage: strings.Contains(shape, "no-ku")})
+					var victims []*big.Int
+					var es []crlgen.Entry
+					for i := 0; i < 3; i++ {
+						v := gen.SerialOfWidth(rng, 9, false)
+						victims = append(victims, v)
+						es = append(es, crlgen.Entry{Serial: v, Date: gen.BaseTime})
+					}
+					sp := gen.SpecFor(attacker, es)
+					if named == "ca" {
+						sp.IssuerRaw = w.Int.Cert.RawSubject
+					}
+					sp.Exts = [][]byte{crlgen.CRLNumberExt(big.NewInt(3))}
+					switch aki {
+					case "client-ski":
+						sp.Exts = append(sp.Exts, crlgen.AKIKeyID(attacker.Cert.SubjectKeyId))
+					case "ca-ski":
+						sp.Exts = append(sp.Exts, crlgen.AKIKeyID(w.Int.Cert.SubjectKeyId))
+					}
+					w.CRL.Set(path, origin.Good(sp.Build(attacker.Key).DER))
+					desc := fmt.Sprintf("forged-by-client backend=%s client-extensions=%s aki=%s list-issuer-name=%s", backend, shape, aki, named)
+					// the forging client presents itself first, so its chain is the one the list is checked against
+					_, _ = chk.Ask([]*x509.Certificate{attacker.Cert, w.Int.Cert, w.Root.Cert})
+					bad := false
+					for _, v := range victims {
+						rev, err := chk.Ask(w.Leaf(v, []string{url}, nil))
+						run.Eval(1)
+						if rev || err != nil {
+							bad = true
+							run.Violation("forged-by-client.revokes-certificate-of-the-ca."+shape+".aki-"+aki+".named-"+named,
+								fmt.Sprintf("%s: serial %s of the CA is reported revoked (err=%v) by a list signed with a client certificate's key", desc, v, err), &report.Replay{Case: desc})
+							break
+						}
+					}
+					if !bad {
+						run.NonTrivial(desc)
+					}
+				}
+			}
 		}
 		chk.Stop()
 		_ = os.RemoveAll(wd)
